@@ -287,6 +287,13 @@ Proof.
   destruct (apply_obsmap obsmap (A1 u)); reflexivity.
 Qed.
 
+Lemma observe_restriction_none G times T levels :
+  g_eq G = true -> last_opt times = Some T -> last_opt levels = None ->
+  td_observe Q obsmap interp2 G times [T] levels = Er EIndex.
+Proof.
+  intros Hg HT Hu. unfold td_observe. rewrite Hg, (time_test_final _ _ HT), Hu. reflexivity.
+Qed.
+
 (* which requests take the restriction route *)
 Theorem observe_branch_fixed G times tobs T :
   q_tobs_all Q = false -> last_opt times = Some T ->
